@@ -165,6 +165,16 @@ def check_decode(ctx, cfg, prog, f):
             acc.append(p)
     ctx.require(len(acc) >= 2, 'decode %s: expected an identity and a finite accepting path' % tag)
     nob = 0
+    # what the accepting identity path knows about the buffer, by symbolic execution (loop form / helpers / locals do not matter)
+    from jpv import decodesem
+    sem = None
+    try:
+        okk, smsgs, npaths = decodesem.check_identity(prog, f, bm.configs()[cfg]['words'], data_size(prog, f))
+        if npaths:
+            sem = smsgs
+            ctx.count('identity_paths_executed', npaths)
+    except decodesem.Unsupported as ex:
+        ctx.notes.append('%s %s: identity path not executable (%s); the shape rule decides' % (cfg, tag, ex)) if len(ctx.notes) < 12 else None
     for p in acc:
         rts = reject_tests(g, p)
         calls = path_calls(g, p)
@@ -184,6 +194,14 @@ def check_decode(ctx, cfg, prog, f):
         # O1 form
         ob('form', any(has_call(n.ast, 'is_encoding_compressed') for (n, l) in rts),
            'does not pass the compression-form test (is_encoding_compressed(first byte) != compressed => reject)')
+        if infinity_branch and sem is not None:
+            for nm, text in (('flag-residue', 'does not reject stray flag bits in the first byte of an identity encoding'),
+                             ('padding', 'does not check that every remaining byte of an identity encoding is zero')):
+                mine = [x.split('|', 1)[1] for x in sem if x.startswith(nm + '|')]
+                ob(nm, not mine, text + (': ' + '; '.join(mine) if mine else ''))
+            other = [x for x in sem if '|' not in x]
+            ob('decided', not other, '; '.join(other))
+            continue
         if infinity_branch:
             ob('flag-residue', any(any(x.get('k') == 'un' and x.get('op') == '~' for x in walk(n.ast)) and
                                    refs_global(n.ast, 'encoding_flags_infinity') for (n, l) in rts),
@@ -226,6 +244,8 @@ def check_decode(ctx, cfg, prog, f):
                 if bound == size and start is not None and start <= 1 and unit and cnd.get('op') in ('!=', '<') and rej and not has_break \
                         and not __import__('jpv.ranges', fromlist=['x']).writes_to(lp['body'], ivid):
                     okpad = True
+            if not okpad:
+                raise bm.AnalysisBroken('decode %s: the identity branch is neither executable nor of the known loop shape; no verdict on the padding bytes' % tag)
             ob('padding', okpad, 'does not check that every remaining byte of an identity encoding is zero (loop from byte <=1 to sizeof(data))')
             continue
         # finite branch
